@@ -449,6 +449,14 @@ pub fn odd_command_cases() -> Vec<(&'static str, Opts, Vec<Vec<&'static str>>)> 
     let g = Opts::new(P::Seq(vec![P::Switch(Names::both('q', "quiet")), P::Hide(sync("sync").bx())]));
     let h = Opts::new(P::Seq(vec![P::Switch(Names::both('q', "quiet")), P::Alt(vec![sync("other"), P::Hide(sync("sync").bx())])]));
     let i = Opts::new(P::Seq(vec![P::Switch(Names::both('q', "quiet")), P::Some_(P::Alt(vec![sync("sync"), sync("other")]).bx(), false)]));
+    // an adjacent command behind a choice of two flags, both given: the one the choice did not
+    // take stands between the command name and the help flag
+    let j = {
+        let mut inner = Opts::new(P::Seq(vec![P::arg(Names::both('j', "jobs-inner"), Ty::U32), P::Switch(Names::long("dry"))]));
+        inner.cfg.descr = Some(DocSpec::plain("the command itself"));
+        let cmd = P::Cmd { name: "sync".into(), shorts: vec![], longs: vec![], inner: Box::new(inner), adjacent: true, help: None };
+        Opts::new(P::Seq(vec![P::Alt(vec![P::Map(P::ReqFlag(Names::both('q', "quiet")).bx(), "q".into()), P::Map(P::ReqFlag(Names::short('b')).bx(), "b".into())]), cmd]))
+    };
     vec![
         ("last-over-a-choice-of-commands", d, vec![vec!["sync", "--help"], vec!["sync", "--dry", "-h"], vec!["-q", "sync", "--help"], vec!["sync", "--bogus", "--help"]]),
         ("optional-over-a-choice-of-commands", e, vec![vec!["sync", "--help"], vec!["sync", "--dry", "-h"], vec!["-q", "sync", "--help"], vec!["sync", "-j", "x", "--help"]]),
@@ -458,6 +466,7 @@ pub fn odd_command_cases() -> Vec<(&'static str, Opts, Vec<Vec<&'static str>>)> 
         ("command-under-fallback-beside-a-valued-alternative", b, vec![vec!["sync", "--help"], vec!["sync", "--help", "--jobs", "many"], vec!["sync", "--jobs", "many", "--help"], vec!["sync", "--help", "--jobs"], vec!["sync", "--dry", "-h"]]),
         ("hidden-command", g, vec![vec!["sync", "--help"], vec!["-q", "sync", "-h"], vec!["sync", "--dry", "--help"], vec!["sync", "--bogus", "--help"]]),
         ("hidden-command-among-siblings", h, vec![vec!["sync", "--help"], vec!["-q", "sync", "--dry", "-h"]]),
+        ("adjacent-command-behind-a-choice-with-both-branches-given", j, vec![vec!["-b", "sync", "-q", "--help"], vec!["-b", "sync", "-q", "--dry", "--help"], vec!["-q", "sync", "-b", "-h"], vec!["-b", "sync", "--help"]]),
         ("some-over-a-choice-of-commands", i, vec![vec!["sync", "--help"], vec!["sync", "--dry", "-h"], vec!["-q", "sync", "--help"], vec!["sync", "-j", "x", "--help"]]),
     ]
 }
